@@ -25,12 +25,19 @@ def checker(sc, meta, log, tr):
     end_t = [t for (t, k, b) in log if k == "END"][0]
     # every stream closes
     for tag, t0 in called.items():
-        if tag not in ended and end_t - t0 > 60 * S:
+        if tag not in ended and end_t - t0 > 90 * S:       # (scenarios run 100 s beyond the last search call)
             out.append({"kind": "search stream never closed", "tag": tag, "called": t0})
     sendfails = any(k == "SENDFAIL" for (_, k, _) in log)
     rm = render_map(log)
     for aid, v in views.items():
         if v.finished is None:
+            # still open at the end of the run: overdue if its own bound (1.5 s per distinct node + 3 s) has passed
+            if v.queries:
+                t1 = v.queries[0][0]
+                d = len(v.named | set(q[2] for q in v.queries))
+                if end_t > t1 + T * (1 + d) + T + 1 * S:
+                    out.append({"kind": "search still open after 1.5 s per distinct node + 3 s", "search": aid,
+                                "first_query": t1, "distinct_nodes": d, "run_ended": end_t})
             continue
         if not v.queries:
             continue
@@ -78,7 +85,7 @@ def checker(sc, meta, log, tr):
 
 
 def gen(rng, consts, i):
-    return nodegen.gen_lookup(rng, consts, hostile=False, faults=(i % 4 != 3), early=(i % 6 == 0))
+    return nodegen.gen_lookup(rng, consts, hostile=False, faults=(i % 4 != 3), early=(i % 6 == 0), as_routers=(i % 5 == 4))
 
 
 def run(res):
